@@ -53,6 +53,32 @@ ADD = {
  "C20": "Large-vector variants of the vector and adapter accounting runs.",
 }
 
+# workloads added after the ninth round (DESIGN.md 14.13)
+UNW = "Unwinding histories: a user callback or a trait impl of the element type panics in the middle of a library call, the caller catches it and goes on; "
+VAR = " ./check repeats the sequential monitors with the harness built for elements of 164 and 4236 bytes and with cargo profile `plain` (no debug assertions, wrapping arithmetic)."
+VARP = " ./check repeats the sequential monitors with cargo profile `plain` (no debug assertions, wrapping arithmetic)."
+ADD9 = {
+ "C01": UNW + "after a Clone panic under a read lock an ordinary set() must still be delivered to every subscriber. An end of stream while an owner lives is reported here too (ready without an unobserved update), e.g. for observables built through Default." + VAR,
+ "C02": "A poll that answers Pending although the end is available (reset subscriber polled after the close) is reported here too." + VARP,
+ "C03": UNW + "after a Clone panic (nothing poisoned) every subscriber must still end once the owners are gone." + VARP,
+ "C04": VARP.strip(),
+ "C05": UNW + "after a panic inside a for_each closure or an out-of-range call every subscriber's replica must equal the contents at its next Pending; a transaction in which one call panicked (out of range, or the element's Clone inside the library or inside imbl's copy-on-write of a one-chunk vector) and that is committed afterwards must publish exactly pre-state -> contents." + VAR,
+ "C06": UNW + "replica == contents at Pending and only applicable diffs after the caught panic." + VAR,
+ "C07": UNW + "a transaction dropped by the unwinding leaves no trace; a transaction committed after one of its calls panicked publishes exactly what its handle showed." + VAR,
+ "C08": UNW + "after the caught panic, further calls and the drop, every stream ends on the final contents." + VAR,
+ "C09": "Limits and counts at the edges of usize and isize (usize::MAX = 'no limit'); two adapters driven by one limit observable whose subscriber was polled and then cloned / clone_reset (views and ends judged per adapter)." + VAR,
+ "C10": VAR.strip(), "C11": VAR.strip(),
+ "C12": "Limits and counts at the edges of usize and isize in chains." + VAR,
+ "C13": "Whether a history lagged is decided by an upper bound of the messages that can have been waiting, not by the arrival of a Reset: a Reset without lag no longer removes a history from the batched-vs-unbatched comparison." + VAR,
+ "C14": "Two adapters on one limit observable (the limit subscriber polled to Pending, then cloned or clone_reset), polled with different wakers: the wake implication is evaluated per adapter." + VAR,
+ "C15": "Huge limits." + VAR,
+ "C16": UNW + "after a Clone panic inside poll_next the async subscriber must keep working like the sync one (no panic on later polls, value delivered, end reported)." + VAR,
+ "C17": "Indices and lengths at the edges of usize (usize::MAX, usize::MAX-1, isize::MAX+1) for insert/set/remove/entry/truncate, directly and in transactions." + VAR,
+ "C18": "Mapped element types of 0, 1, 72 and 4800 bytes; a panic inside VectorDiff::map is a violation." + VARP,
+ "C19": UNW + "after a caught Clone panic the counts must still equal the live handles and subscribers." + VARP,
+ "C20": UNW + "(update / update_if closures incl. one that owns the taken value, write guards alive while unwinding, PartialEq / Hash / Clone / Ord of the element, for_each closures, transactions alive while unwinding, out-of-range calls, filter / filter_map / sort_by / sort_by_key callbacks on plain and batched streams, also while the adapter is built): no double drop, no use after drop, nothing alive at the end (leaks are tolerated only where imbl's own inline representation leaks on a panicking Clone)." + VAR,
+}
+
 checks = []
 for p in props:
     pid = p["id"]
@@ -61,6 +87,8 @@ for p in props:
     engine, cat, text, tech, ref = CHECKS[pid]
     if pid in ADD:
         text = text + " " + ADD[pid]
+    if pid in ADD9:
+        text = text + " " + ADD9[pid]
     checks.append({
         "property_id": pid,
         "quick_cmd": f"./check {pid} --tier quick",
@@ -89,6 +117,8 @@ m = {
   {"name": "obs", "path": "harness/src/engine_obs.rs", "serves_properties": ["C01","C02","C03","C16","C19","C20"], "kind_free_text": "sequential Observable/SharedObservable executor for both lock flavours with a version/owner/count model"},
   {"name": "thr", "path": "harness/src/engine_thr.rs", "serves_properties": ["C01","C02","C03","C04","C16"], "kind_free_text": "thread director forcing schedules at the __verif pause points; free-running rounds with injected yields; offline history checkers"},
   {"name": "misc", "path": "harness/src/runners_misc.rs", "serves_properties": ["C18","C20"], "kind_free_text": "exhaustive diff map/apply execution; bulk drop-accounting runs"},
+  {"name": "unwind", "path": "harness/src/runners_unwind.rs", "serves_properties": ["C01","C03","C05","C06","C07","C08","C16","C19","C20"], "kind_free_text": "histories in which a user callback or a trait impl of the element type panics inside a library call and is caught; drop accounting plus what the properties say about the calls that follow"},
+  {"name": "pairs", "path": "harness/src/runners_pairs.rs", "serves_properties": ["C09","C14"], "kind_free_text": "two adapters driven by one limit observable (subscriber polled, then cloned), wake implication and view oracle per adapter"},
   {"name": "adp", "path": "harness/src/engine_adp.rs", "serves_properties": ["C09","C10","C11","C12","C13","C14","C15","C20"], "kind_free_text": "adapter/chain executor with transparent taps, event log and per-stage oracles"},
  ],
  "checks": checks,
